@@ -8,6 +8,25 @@ theorem fits_iff (cap used : Nat → Nat) (ch : List Nat) (amt : Nat) :
     fits cap used ch amt = true ↔ ∀ x ∈ ch, used x + amt ≤ cap x := by
   simp [fits, List.all_eq_true]
 
+theorem effCap_le_own (cap : Nat → Nat) (ch : List Nat) (own : Nat) : effCap cap ch own ≤ own := by
+  unfold effCap
+  induction ch generalizing own with
+  | nil => exact Nat.le_refl _
+  | cons y ys ih => exact Nat.le_trans (ih (min own (cap y))) (Nat.min_le_left _ _)
+
+/-- within the effective cap = within the own cap and the cap of every limiter of the chain -/
+theorem le_effCap_iff (cap : Nat → Nat) (ch : List Nat) (own a : Nat) :
+    a ≤ effCap cap ch own ↔ a ≤ own ∧ ∀ x ∈ ch, a ≤ cap x := by
+  unfold effCap
+  induction ch generalizing own with
+  | nil => simp
+  | cons y ys ih =>
+    simp only [List.foldl_cons, List.mem_cons, forall_eq_or_imp]
+    rw [ih (min own (cap y)), Nat.le_min]
+    constructor
+    · rintro ⟨⟨h1, h2⟩, h3⟩; exact ⟨h1, h2, h3⟩
+    · rintro ⟨h1, h2, h3⟩; exact ⟨⟨h1, h2⟩, h3⟩
+
 theorem charge_le (cap used : Nat → Nat) (ch : List Nat) (amt : Nat) (h : ∀ x, used x ≤ cap x)
     (hf : fits cap used ch amt = true) : ∀ x, charge used ch amt x ≤ cap x := by
   intro x
